@@ -116,6 +116,8 @@ func runSolver(ctx context.Context, sp solverSpec, file string, secs int) solver
 	v := "unknown"
 	if first == "unsat" || first == "sat" {
 		v = first
+	} else if strings.HasPrefix(first, "(error") && !strings.Contains(first, "timeout") {
+		v = "error: " + first
 	}
 	return solverAnswer{sp.name, v, s, time.Since(start).Seconds()}
 }
@@ -184,7 +186,15 @@ func solve(o *Obl, workdir string, timeout int, thorough bool) *Result {
 	cancel()
 	go func() { wg.Wait() }()
 	res.Secs = time.Since(start).Seconds()
+	nerr := 0
+	for _, l := range res.Log {
+		if strings.Contains(l, ": error: ") {
+			nerr++
+		}
+	}
 	switch {
+	case nerr > 0 && nerr == len(res.Log) && len(sats) == 0 && len(unsats) == 0:
+		res.Verdict = "error"
 	case len(sats) > 0 && len(unsats) > 0:
 		res.Verdict = "unknown"
 		res.Log = append(res.Log, "SOLVER DISAGREEMENT")
